@@ -35,12 +35,36 @@ func init() {
 		if err != nil {
 			return nil, nil, err
 		}
+		// value semantics: taking one strand must leave the record, and every strand taken before, as they were
+		orig := append([]byte(nil), recs[0].Seq...)
 		var r fastaio.EncodedFastaRecord
 		if boolean(c, "reverse") {
 			r = recs[0].ReverseComplement()
 		} else {
 			r = recs[0].Complement()
 		}
-		return r.Seq, map[string]interface{}{"decoded": r.Decode().Seq}, nil
+		first := append([]byte(nil), r.Seq...)
+		comp := recs[0].Complement()
+		compCopy := append([]byte(nil), comp.Seq...)
+		rc := recs[0].ReverseComplement()
+		back := comp.Complement()
+		rev := func(b []byte) []byte {
+			o := make([]byte, len(b))
+			for i := range b {
+				o[len(b)-1-i] = b[i]
+			}
+			return o
+		}
+		switch {
+		case !bytes.Equal(recs[0].Seq, orig):
+			return first, nil, errors.New("the record itself was changed by taking its complement / reverse complement")
+		case !bytes.Equal(r.Seq, first) || !bytes.Equal(comp.Seq, compCopy):
+			return first, nil, errors.New("a strand taken earlier was changed by taking another one (results share storage)")
+		case !bytes.Equal(rc.Seq, rev(compCopy)):
+			return first, nil, errors.New("reverse complement is not the reverse of the complement of the same record")
+		case !bytes.Equal(back.Seq, orig):
+			return first, nil, errors.New("complement of the complement is not the record")
+		}
+		return first, map[string]interface{}{"decoded": r.Decode().Seq}, nil
 	}
 }
